@@ -8,7 +8,8 @@ CONSTANTS Callers, CfgSet, MaxTime, Outs, Keys
 VARIABLES cfg, now, st, key, deadline, doneAt, gout, gid, ngate, ev
 vars == <<cfg, now, st, key, deadline, doneAt, gout, gid, ngate, ev>>
 view == <<cfg, now, st, key, deadline, doneAt, gout, gid, ngate>>
-Tof(c) == IF cfg.perReq = 1 THEN key[c] ELSE cfg.T
+\* cfg.T >= 1000000 stands for Duration::MAX ("no deadline"), fixed or per request
+Tof(c) == IF cfg.T >= 1000000 THEN cfg.T ELSE IF cfg.perReq = 1 THEN key[c] ELSE cfg.T
 Cancel == cfg.cancel = 1
 InitWith(cf) ==
   /\ cfg = cf /\ now = 0 /\ st = [c \in Callers |-> "idle"] /\ key = [c \in Callers |-> 1]
